@@ -67,3 +67,36 @@ def explicit_reg(text, is_new):
 def alias(name, is_new):
     return {"enum": "HEX_REG_ALIAS_" + name.upper(), "width": 64 if name.upper() in ALIAS_64 else 32, "signed": False,
             "new": "true" if is_new else "false"}
+
+
+# Prototypes of the QEMU helper functions / plugin macros the shortcode calls (T-PLUGIN): name -> (return type, parameter types,
+# emitted macro).  Transcribed from QEMU's include/qemu/bitops.h and include/qemu/bswap.h (extract/deposit/bswap), target/hexagon
+# (get_corresponding_CS, REGFIELD); the float helper rows are the plugin's declarations as found at the pinned commit (no
+# independent source in the sandbox: they pin the table, they do not validate it).  The data file qemu_rzil_macros.json must agree.
+MACRO_PROTOTYPES = {
+    "extract32": ("uint32_t", ["uint32_t", "int32_t", "int32_t"], "EXTRACT32"),
+    "extract64": ("uint64_t", ["uint64_t", "int32_t", "int32_t"], "EXTRACT64"),
+    "sextract64": ("int64_t", ["uint64_t", "int32_t", "int32_t"], "SEXTRACT64"),
+    "deposit32": ("uint32_t", ["uint32_t", "int32_t", "int32_t", "uint32_t"], "DEPOSIT32"),
+    "deposit64": ("uint64_t", ["uint64_t", "int32_t", "int32_t", "uint64_t"], "DEPOSIT64"),
+    "bswap16": ("uint16_t", ["uint16_t"], "BSWAP16"),
+    "bswap32": ("uint32_t", ["uint32_t"], "BSWAP32"),
+    "bswap64": ("uint64_t", ["uint64_t"], "BSWAP64"),
+    "REGFIELD": ("uint32_t", ["HexRegFieldProperty", "HexRegField"], "HEX_REGFIELD"),
+    "get_corresponding_CS": ("int32_t", ["HexPkt *pkt", "HexOp *Mu"], "HEX_GET_CORRESPONDING_CS"),
+    "FLOAT": ("float", ["RzFloatFormat", "uint32_t"], "BV2F"),
+    "DOUBLE": ("double", ["RzFloatFormat", "uint64_t"], "BV2F"),
+    "fUNFLOAT": ("uint32_t", ["float"], "F2BV"),
+    "fUNDOUBLE": ("uint64_t", ["double"], "F2BV"),
+    "HEX_INT_TO_D": ("double", ["RzFloatRMode", "uint64_t"], "HEX_INT_TO_D"),
+    "HEX_INT_TO_F": ("float", ["RzFloatRMode", "uint64_t"], "HEX_INT_TO_F"),
+    "HEX_SINT_TO_D": ("double", ["RzFloatRMode", "int64_t"], "HEX_SINT_TO_D"),
+    "HEX_SINT_TO_F": ("float", ["RzFloatRMode", "int64_t"], "HEX_SINT_TO_F"),
+    "HEX_D_TO_INT": ("uint64_t", ["RzFloatRMode", "double"], "HEX_D_TO_INT"),
+    "HEX_F_TO_INT": ("uint64_t", ["RzFloatRMode", "float"], "HEX_F_TO_INT"),
+    "HEX_D_TO_SINT": ("uint64_t", ["RzFloatRMode", "double"], "HEX_D_TO_SINT"),
+    "HEX_F_TO_SINT": ("uint64_t", ["RzFloatRMode", "float"], "HEX_F_TO_SINT"),
+    "IS_INF": ("bool", ["float"], "IS_INF"),
+    "HEX_GET_INSN_RMODE": ("RzFloatRMode", ["HexInsn"], "HEX_GET_INSN_RMODE"),
+    "HEX_SETROUND": ("void", ["HexInsn", "RzFloatRMode"], "HEX_SETROUND"),
+}
